@@ -149,7 +149,12 @@ func (r *RolloutReconciler) Reconcile(ctx context.Context, req ctrl.Request) (ct
 
 	switch rollout.Status.Phase {
 	case v1beta1.RolloutPhaseProgressing:
-		recheckTime, err = r.reconcileRolloutProgressing(rollout, newStatus)
+		// A rollout that has just started terminating or disabling is cleaned up by that phase's own
+		// branch on the next reconcile. Running the progressing logic once more with the new status
+		// would advance the restarted clean-up cursor along the task order of the old exit.
+		if newStatus.Phase == v1beta1.RolloutPhaseProgressing {
+			recheckTime, err = r.reconcileRolloutProgressing(rollout, newStatus)
+		}
 	case v1beta1.RolloutPhaseTerminating:
 		recheckTime, err = r.reconcileRolloutTerminating(rollout, newStatus)
 	case v1beta1.RolloutPhaseDisabling:
